@@ -85,6 +85,8 @@ class Taint:
                             return True
             return False
         if isinstance(e, ast.Subscript):
+            if self.string_mode:
+                return self.tainted(e.value, f)      # a character or a slice of a raw string is raw text
             if isinstance(e.slice, ast.Slice):
                 return False  # a slice is a copy
             return self.through_subscript and self.tainted(e.value, f)
